@@ -167,7 +167,11 @@ func c02Check(e *core.Env, r *core.Rand, d *gen.Out, today ref.Date, nowCase boo
 		if nowCase {
 			args = append(args, "--now")
 		}
-		b := obs.RunBin(obs.BinEnv{Bin: e.KlogBin, ConfigDir: e.Dir + "/bincfg", Clock: &clock, Stdin: []byte(d.Text)}, args...)
+		bcfg := e.Dir + "/bincfg"
+		if len(d.Text)%2 == 0 {
+			bcfg = cfgWithDefaultBookmark(e) // piped text takes precedence over a default bookmark
+		}
+		b := obs.RunBin(obs.BinEnv{Bin: e.KlogBin, ConfigDir: bcfg, Clock: &clock, Stdin: []byte(d.Text)}, args...)
 		if b.Err == nil {
 			w["how"] = "cat FILE | klog " + strings.Join(args, " ")
 			if obs.LooksLikeGoCrash(b.Stdout+b.Stderr) || b.Code != 0 {
